@@ -14,6 +14,7 @@ func checkC04(c *Check) {
 	if p == nil {
 		return
 	}
-	runAsm(c, p, []asmCase{{false, false}, {false, true}}, map[string]string{"offset": "R04.1", "consumed": "R04.2", "access": "R04.3", "blockend": "R04.4", "exit": "R04.5"})
+	runAsm(c, p, []asmCase{{false, false}, {false, true}}, map[string]string{"offset": "R04.1", "consumed": "R04.2", "access": "R04.3", "blockend": "R04.4", "exit": "R04.5", "nowrap32": "R04.8"})
+	c.RuleDoc["R04.8"] = "assembly: 32-bit arithmetic on lengths and positions does not wrap (no instance on the current tree: all length arithmetic is 64-bit)"
 	portableDecoderRules(c, "R04")
 }
